@@ -1,0 +1,266 @@
+//go:build verif
+
+package replication
+
+// Contracts for the binary-JSON column printer (property C14).
+//
+// The specification is an independent, recursive description of the text of a document in MySQL's binary JSON
+// format (WL#8132): specJSONValueText. Every printer function is verified against its own piece of it; at a call
+// only the callee's contract is used, so the mutual recursion of the printers is cut at the contracts.
+
+import (
+	"bytes"
+
+	"github.com/Breeze0806/gobinlog/internal/vspec"
+)
+
+// ---- building blocks ----
+
+func specJQ(top bool) vspec.Text {
+	if top {
+		return vspec.Lit("'")
+	}
+	return vspec.Empty()
+}
+
+// size of an offset / count field and of a value entry
+func specJW(large bool) int {
+	if large {
+		return 4
+	}
+	return 2
+}
+
+func specJOff(data []byte, pos int, large bool) int {
+	if large {
+		return int(specLE32(data, pos))
+	}
+	return int(specLE16(data, pos))
+}
+
+// ---- variable-length size prefix: 7 bits per byte, least significant group first, high bit = "more follows";
+// at most 5 bytes (sizes are below 2^32) ----
+
+func specVarLenBytes(data []byte, pos int) int {
+	switch {
+	case pos < len(data) && data[pos] < 0x80:
+		return 1
+	case pos+1 < len(data) && data[pos+1] < 0x80:
+		return 2
+	case pos+2 < len(data) && data[pos+2] < 0x80:
+		return 3
+	case pos+3 < len(data) && data[pos+3] < 0x80:
+		return 4
+	case pos+4 < len(data) && data[pos+4] < 0x80:
+		return 5
+	}
+	return 0 // not a well-formed prefix
+}
+
+func specVarLen(data []byte, pos int) int {
+	n := specVarLenBytes(data, pos)
+	v := 0
+	if n >= 1 {
+		v |= int(data[pos] & 0x7f)
+	}
+	if n >= 2 {
+		v |= int(data[pos+1]&0x7f) << 7
+	}
+	if n >= 3 {
+		v |= int(data[pos+2]&0x7f) << 14
+	}
+	if n >= 4 {
+		v |= int(data[pos+3]&0x7f) << 21
+	}
+	if n >= 5 {
+		v |= int(data[pos+4]&0x7f) << 28
+	}
+	return v
+}
+
+func vc_readVariableLength_requires(data []byte, pos int) bool {
+	return pos >= 0 && pos < len(data) && specVarLenBytes(data, pos) > 0
+}
+
+func vc_readVariableLength_ensures_value(data []byte, pos int, res int, next int) bool {
+	return res == specVarLen(data, pos) && next == pos+specVarLenBytes(data, pos)
+}
+
+// ---- offsets and counts ----
+
+func vc_readOffsetOrSize_requires(data []byte, pos int, large bool) bool {
+	return pos >= 0 && pos < len(data) && pos+specJW(large) <= len(data)
+}
+
+func vc_readOffsetOrSize_ensures_value(data []byte, pos int, large bool, v int, next int) bool {
+	return v == specJOff(data, pos, large) && next == pos+specJW(large)
+}
+
+// ---- scalars ----
+
+func specJLitText(b byte) vspec.Text {
+	switch b {
+	case 0:
+		return vspec.Lit("null")
+	case 1:
+		return vspec.Lit("true")
+	}
+	return vspec.Lit("false")
+}
+
+func vc_printJSONLiteral_requires(b byte, toplevel bool, result *bytes.Buffer) bool {
+	return result != nil
+}
+func vc_printJSONLiteral_ensures_text(b byte, toplevel bool, result *bytes.Buffer, err error) bool {
+	if b > 2 {
+		return err != nil
+	}
+	return err == nil && vspec.BufIs(result, vspec.Cat(vspec.BufOld(result), specJQ(toplevel), specJLitText(b), specJQ(toplevel)))
+}
+
+func vc_printJSONInt16_requires(data []byte, toplevel bool, result *bytes.Buffer) bool {
+	return len(data) >= 2 && result != nil
+}
+func vc_printJSONInt16_ensures_text(data []byte, toplevel bool, result *bytes.Buffer) bool {
+	return vspec.BufIs(result, vspec.Cat(vspec.BufOld(result), specJQ(toplevel), vspec.DecS(int64(int16(specLE16(data, 0)))), specJQ(toplevel)))
+}
+
+func vc_printJSONUint16_requires(data []byte, toplevel bool, result *bytes.Buffer) bool {
+	return len(data) >= 2 && result != nil
+}
+func vc_printJSONUint16_ensures_text(data []byte, toplevel bool, result *bytes.Buffer) bool {
+	return vspec.BufIs(result, vspec.Cat(vspec.BufOld(result), specJQ(toplevel), vspec.Num(0, uint64(specLE16(data, 0))), specJQ(toplevel)))
+}
+
+func vc_printJSONInt32_requires(data []byte, toplevel bool, result *bytes.Buffer) bool {
+	return len(data) >= 4 && result != nil
+}
+func vc_printJSONInt32_ensures_text(data []byte, toplevel bool, result *bytes.Buffer) bool {
+	return vspec.BufIs(result, vspec.Cat(vspec.BufOld(result), specJQ(toplevel), vspec.DecS(int64(int32(specLE32(data, 0)))), specJQ(toplevel)))
+}
+
+func vc_printJSONUint32_requires(data []byte, toplevel bool, result *bytes.Buffer) bool {
+	return len(data) >= 4 && result != nil
+}
+func vc_printJSONUint32_ensures_text(data []byte, toplevel bool, result *bytes.Buffer) bool {
+	return vspec.BufIs(result, vspec.Cat(vspec.BufOld(result), specJQ(toplevel), vspec.Num(0, uint64(specLE32(data, 0))), specJQ(toplevel)))
+}
+
+func vc_printJSONInt64_requires(data []byte, toplevel bool, result *bytes.Buffer) bool {
+	return len(data) >= 8 && result != nil
+}
+func vc_printJSONInt64_ensures_text(data []byte, toplevel bool, result *bytes.Buffer) bool {
+	return vspec.BufIs(result, vspec.Cat(vspec.BufOld(result), specJQ(toplevel), vspec.DecS(int64(specLE64(data, 0))), specJQ(toplevel)))
+}
+
+func vc_printJSONUint64_requires(data []byte, toplevel bool, result *bytes.Buffer) bool {
+	return len(data) >= 8 && result != nil
+}
+func vc_printJSONUint64_ensures_text(data []byte, toplevel bool, result *bytes.Buffer) bool {
+	return vspec.BufIs(result, vspec.Cat(vspec.BufOld(result), specJQ(toplevel), vspec.Num(0, specLE64(data, 0)), specJQ(toplevel)))
+}
+
+func vc_printJSONDouble_requires(data []byte, toplevel bool, result *bytes.Buffer) bool {
+	return len(data) >= 8 && result != nil
+}
+func vc_printJSONDouble_ensures_text(data []byte, toplevel bool, result *bytes.Buffer) bool {
+	return vspec.BufIs(result, vspec.Cat(vspec.BufOld(result), specJQ(toplevel), vspec.Float(specLE64(data, 0), 'E', -1, 64), specJQ(toplevel)))
+}
+
+// ---- strings: variable-length size, then the bytes ----
+
+func specJStringOK(data []byte) bool {
+	n := specVarLenBytes(data, 0)
+	return n > 0 && n+specVarLen(data, 0) <= len(data)
+}
+
+func specJStringText(data []byte, top bool) vspec.Text {
+	n := specVarLenBytes(data, 0)
+	s := vspec.Raw(data[n : n+specVarLen(data, 0)])
+	if top {
+		return vspec.Cat(vspec.Lit("'\""), s, vspec.Lit("\"'"))
+	}
+	return vspec.Cat(vspec.Lit("'"), s, vspec.Lit("'"))
+}
+
+func vc_printJSONString_requires(data []byte, toplevel bool, result *bytes.Buffer) bool {
+	return specJStringOK(data) && result != nil
+}
+func vc_printJSONString_ensures_text(data []byte, toplevel bool, result *bytes.Buffer) bool {
+	return vspec.BufIs(result, vspec.Cat(vspec.BufOld(result), specJStringText(data, toplevel)))
+}
+
+// ---- opaque temporal scalars: MySQL's packed 8-byte formats (my_time.cc: TIME_to_longlong_*_packed). The packed
+// value is a signed 64-bit integer ((int part) << 24 | microseconds); a negative TIME is the negation of the packed
+// value of its absolute value ----
+
+func specJCastOpen(top bool) vspec.Text {
+	if top {
+		return vspec.Lit("CAST(")
+	}
+	return vspec.Empty()
+}
+
+func specJCastClose(top bool) vspec.Text {
+	if top {
+		return vspec.Lit(" AS JSON)")
+	}
+	return vspec.Empty()
+}
+
+func specJFrac(us uint64) vspec.Text {
+	if us == 0 {
+		return vspec.Empty()
+	}
+	return vspec.Cat(vspec.Lit("."), vspec.Num(6, us))
+}
+
+func specJDateText(data []byte, top bool) vspec.Text {
+	ip := specLE64(data, 0) >> 24
+	ym := (ip >> 22) & 0x1ffff
+	return vspec.Cat(specJCastOpen(top), vspec.Lit("CAST('"), vspec.Num(4, ym/13), vspec.Lit("-"), vspec.Num(2, ym%13), vspec.Lit("-"),
+		vspec.Num(2, (ip>>17)&0x1f), vspec.Lit("' AS DATE)"), specJCastClose(top))
+}
+
+func specJDateTimeText(data []byte, top bool) vspec.Text {
+	raw := specLE64(data, 0)
+	ip := raw >> 24
+	ym := (ip >> 22) & 0x1ffff
+	return vspec.Cat(specJCastOpen(top), vspec.Lit("CAST('"), vspec.Num(4, ym/13), vspec.Lit("-"), vspec.Num(2, ym%13), vspec.Lit("-"),
+		vspec.Num(2, (ip>>17)&0x1f), vspec.Lit(" "), vspec.Num(2, (ip>>12)&0x1f), vspec.Lit(":"), vspec.Num(2, (ip>>6)&0x3f), vspec.Lit(":"),
+		vspec.Num(2, ip&0x3f), specJFrac(raw&0xffffff), vspec.Lit("' AS DATETIME(6))"), specJCastClose(top))
+}
+
+func specJTimeText(data []byte, top bool) vspec.Text {
+	packed := int64(specLE64(data, 0))
+	sign := vspec.Empty()
+	if packed < 0 {
+		sign = vspec.Lit("-")
+		packed = -packed
+	}
+	abs := uint64(packed)
+	hms := abs >> 24
+	return vspec.Cat(specJCastOpen(top), vspec.Lit("CAST('"), sign, vspec.Num(2, (hms>>12)&0x3ff), vspec.Lit(":"), vspec.Num(2, (hms>>6)&0x3f),
+		vspec.Lit(":"), vspec.Num(2, hms&0x3f), specJFrac(abs&0xffffff), vspec.Lit("' AS TIME(6))"), specJCastClose(top))
+}
+
+func vc_printJSONDate_requires(data []byte, toplevel bool, result *bytes.Buffer) bool {
+	return len(data) >= 8 && result != nil
+}
+func vc_printJSONDate_ensures_text(data []byte, toplevel bool, result *bytes.Buffer, err error) bool {
+	return err == nil && vspec.BufIs(result, vspec.Cat(vspec.BufOld(result), specJDateText(data, toplevel)))
+}
+
+func vc_printJSONDateTime_requires(data []byte, toplevel bool, result *bytes.Buffer) bool {
+	return len(data) >= 8 && result != nil
+}
+func vc_printJSONDateTime_ensures_text(data []byte, toplevel bool, result *bytes.Buffer, err error) bool {
+	return err == nil && vspec.BufIs(result, vspec.Cat(vspec.BufOld(result), specJDateTimeText(data, toplevel)))
+}
+
+func vc_printJSONTime_requires(data []byte, toplevel bool, result *bytes.Buffer) bool {
+	return len(data) >= 8 && result != nil
+}
+func vc_printJSONTime_ensures_text(data []byte, toplevel bool, result *bytes.Buffer, err error) bool {
+	return err == nil && vspec.BufIs(result, vspec.Cat(vspec.BufOld(result), specJTimeText(data, toplevel)))
+}
